@@ -1035,10 +1035,10 @@ func genCfg(r *rand.Rand, i int, pkts int) Cfg {
 		c.NIn = 1000
 	}
 	switch i % 12 {
-	case 9:
-		// a device-initiated rekey in the middle of a paced flood in both directions
+	case 10:
+		// a device-initiated rekey in the middle of a paced flood in both directions (no other run kind is combined with it)
 		c.Rekey = true
-		c.Remove, c.Huge, c.VictimShare = false, false, 0 // (i%6 == 3 made this a removal run: not combined)
+		c.Remove, c.Huge, c.VictimShare, c.DownUp, c.JunkExpired = false, false, 0, false, false
 		c.NOut, c.NIn = pkts, pkts
 		c.Procs = []int{runtime.NumCPU(), 4, 2}[r.Intn(3)]
 		c.Peers = 1 + r.Intn(2)
@@ -1066,7 +1066,7 @@ func genCfg(r *rand.Rand, i int, pkts int) Cfg {
 		c.Hogs, c.OneIn = 0, 0
 		c.Peers = 2
 		c.NOut, c.NIn = 4*c.NOut, 100
-	case 4, 10:
+	case 4:
 		// the interface goes down and up several times during a flood of large packets on few Ps
 		c.Cycles = 4 + r.Intn(6)
 		c.Peers, c.Huge = 2+r.Intn(2), true
